@@ -137,6 +137,12 @@ where
                 .collect(),
         };
 
+        #[cfg(feature = "verif")]
+        crate::verif::order_block_senders(
+            &mut self.block_senders,
+            !matches!(self.next_strategy, NextStrategy::All),
+        );
+
         if matches!(self.next_strategy, NextStrategy::OnlyOne) {
             self.block_senders
                 .iter()
